@@ -668,6 +668,13 @@ fn junk_bytes(r: &mut Rng) -> Vec<u8> {
     let n = r.below(14) as usize;
     let alpha = [b'D', b'L', b'T', 1u8, b'X', 0u8];
     // longer runs of one filler byte (zero padding of preallocated files, erased flash, blanks) and longer random junk
+    // a record whose storage header was lost: a complete message without storage header in front of the next pattern
+    if r.one_in(7) {
+        let m = gen::message(r, &MsgOpts { storage: Some(false), big: 8, max_args: 1 });
+        let mut b = gen::ser(&m);
+        if r.coin() { let mut c = gen::ser(&gen::boundary_small(r)); b.append(&mut c); }
+        return b;
+    }
     if r.one_in(6) {
         let k = 16 + r.below(80) as usize;
         return match r.below(3) { 0 => vec![*r.pick(&[0u8, 0xFF, b' ']); k], 1 => r.bytes(k), _ => { let mut v = vec![0u8; k]; v.extend(b"DL"); v } };
@@ -822,6 +829,33 @@ pub fn hostile_inputs(r: &mut Rng, big: usize) -> Vec<(Vec<u8>, bool)> {
             let mut x = b.clone();
             x[o + std] = msin;
             v.push((x, sh));
+        }
+    }
+    // every 16-bit length field of an argument at its extremes (string / raw length, name and unit lengths of variable info),
+    // alone and in pairs whose sum passes 65535
+    {
+        let be = r.coin();
+        let w16 = |x: u16| if be { x.to_be_bytes() } else { x.to_le_bytes() };
+        let w32 = |x: u32| if be { x.to_be_bytes() } else { x.to_le_bytes() };
+        let ext = [0x41u8, 1, b'A', b'P', b'P', 0, b'C', b'T', b'X', 0];
+        let lens = [0u16, 1, 2, 0x7FFF, 0x8000, 0x8001, 0xFFFE, 0xFFFF];
+        let a = *r.pick(&lens); let b2 = *r.pick(&lens);
+        for (ti, two) in [(0x0000_0843u32, true), (0x0000_0823, true), (0x0000_0885, true), (0x0000_0A00, false), (0x0000_0C00, false), (0x0000_0811, false), (0x0000_0200, false), (0x0000_0400, false)] {
+            // 0x843 u32+VARI, 0x823 i32+VARI, 0x885 f64+VARI: name and unit; 0xA00 string+VARI, 0xC00 raw+VARI, 0x811 bool+VARI: length(s) then name; 0x200 / 0x400: length only
+            let mut pl: Vec<u8> = w32(ti).to_vec();
+            pl.extend(w16(a));
+            if two || ti & 0x800 != 0 { pl.extend(w16(b2)); }
+            let nx = r.below(12) as usize;
+            pl.extend(r.bytes(nx));
+            for declared in [pl.len(), 65535 - 14] {
+                let mut x = vec![0x21 | if be { 2 } else { 0 }, 7, 0, 0];
+                let total = 4 + 10 + declared;
+                x[2] = (total >> 8) as u8; x[3] = total as u8;
+                x.extend(ext);
+                x.extend(&pl);
+                if declared > pl.len() && r.one_in(4) { x.extend(vec![b'n'; declared - pl.len()]); }
+                v.push((x, false));
+            }
         }
     }
     // random mutants, wrong storage mode, all-0xFF, zeros, very long
